@@ -53,12 +53,12 @@ def _signature(err):
     return f"{kind}{obj}@{'<'.join(frames) if frames else '?'}"
 
 
-def gdb_signature(b, tool, path, args, cwd, timeout=60):
+def gdb_signature(b, tool, path, args, cwd, timeout=60, no_input=False):
     """top stepcode frames of a fatal signal (the tools install their own SIGSEGV handler, so ASan prints nothing)"""
     if not shutil.which("gdb"):
         return "?"
     try:
-        r = subprocess.run(["gdb", "-batch", "-ex", "run", "-ex", "bt 8", "--args", b.tool(tool)] + list(args) + [path],
+        r = subprocess.run(["gdb", "-batch", "-ex", "run", "-ex", "bt 8", "--args", b.tool(tool)] + list(args) + ([] if no_input else [path]),
                            cwd=cwd, env=tool_env(b), capture_output=True, text=True, timeout=timeout,
                            stdin=subprocess.DEVNULL)
     except subprocess.TimeoutExpired:
@@ -75,7 +75,7 @@ def gdb_signature(b, tool, path, args, cwd, timeout=60):
     return f"{sig.group(1) if sig else 'SIG?'}@{'<'.join(frames) if frames else '?'}"
 
 
-def run_tool(b, tool, data, workroot, timeout=20, args=(), keep=False, want_sig=True, scan_output=True, env_extra=None):
+def run_tool(b, tool, data, workroot, timeout=20, args=(), keep=False, want_sig=True, scan_output=True, env_extra=None, no_input=False):
     """run one tool on `data` (bytes) in a fresh directory; returns a dict"""
     d = tempfile.mkdtemp(prefix="r-", dir=workroot)
     path = os.path.join(d, "in.exp")
@@ -93,7 +93,7 @@ def run_tool(b, tool, data, workroot, timeout=20, args=(), keep=False, want_sig=
     if env_extra:
         env.update(env_extra)
     try:
-        p = subprocess.Popen([b.tool(tool)] + list(args) + [path], cwd=out_d, env=env, stdin=subprocess.DEVNULL,
+        p = subprocess.Popen([b.tool(tool)] + [path if a == "{in}" else a for a in args] + ([] if no_input else [path]), cwd=out_d, env=env, stdin=subprocess.DEVNULL,
                              stdout=subprocess.PIPE, stderr=subprocess.PIPE, start_new_session=True)
         try:
             so, se = p.communicate(timeout=timeout)
@@ -112,7 +112,8 @@ def run_tool(b, tool, data, workroot, timeout=20, args=(), keep=False, want_sig=
     wall = time.time() - t0
     err = se.decode("latin-1")
     outt = so.decode("latin-1")
-    res = {"tool": tool, "rc": rc, "wall": round(wall, 2), "err": err[-1500:], "args": list(args)}
+    res = {"tool": tool, "rc": rc, "wall": round(wall, 2), "err": err[-1500:], "args": list(args), "stderr_full": err if len(err) <= 200000 else None,
+           "stdout_head": outt[:400]}
     if timed_out:
         res.update(cls="timeout", sig=f"timeout>{timeout}s")
     elif "ERROR: AddressSanitizer" in err or "runtime error:" in err or rc in (SAN_ASAN, SAN_UBSAN):
@@ -120,7 +121,7 @@ def run_tool(b, tool, data, workroot, timeout=20, args=(), keep=False, want_sig=
     elif rc < 0 or rc >= 128:
         s = -rc if rc < 0 else rc - 128
         name = signal.Signals(s).name if s in [x.value for x in signal.Signals] else str(s)
-        sg = gdb_signature(b, tool, path, args, out_d) if want_sig else "?"
+        sg = gdb_signature(b, tool, path, [path if a == "{in}" else a for a in args], out_d, no_input=no_input) if want_sig else "?"
         res.update(cls="signal", sig=f"{name}:{sg}")
     elif rc == 0:
         res.update(cls="accept", sig="")
